@@ -1195,6 +1195,15 @@ class Engine:
             return S.vbool(S.set_eq(self.to_set(E(0)), self.to_set(E(1))))
         if name == 'reach1':
             return self.reach1(ev, node, path, spec)
+        if name in ('is_generated', 'gen_index'):
+            # is_generated(n, kind): n is a block name the generator can hand out for `kind`; gen_index(n): its index
+            nm = E(0)
+            idx_of = ufun('idx_of!block_name', S.sort_of(T_NAME), z3.IntSort())
+            if name == 'gen_index':
+                return S.vint(idx_of(nm.t))
+            kind = E(1)
+            t = S.concat_f(S.concat_f(kind.t, S.name_lit('_block_').t), S.str_of_int(idx_of(nm.t)))
+            return S.vbool(And(nm.t == t, idx_of(nm.t) >= 0))
         if name in ('block_name', 'region_name', 'var_name'):
             kind, idx = E(0), E(1)
             cat = lambda a, b: S.concat_f(a, b)
@@ -2231,12 +2240,13 @@ class Engine:
             m = z3.FreshInt('sm')
             p_.hyps.append(ForAll([y], Select(sc, y) == Exists([m], And(0 <= m, m < i_term, Select(S.seq_arr(seen_seq), m) == y)),
                                   patterns=[Select(sc, y)]))
-            p_.hyps.append(ForAll([m], Implies(And(0 <= m, m < i_term), Select(sc, Select(S.seq_arr(seen_seq), m))),
-                                  patterns=[Select(S.seq_arr(seen_seq), m)]))
+            p_.hyps.append(S.forall_p([m], Implies(And(0 <= m, m < i_term), Select(sc, Select(S.seq_arr(seen_seq), m))),
+                                      [Select(S.seq_arr(seen_seq), m)]))
             return V(('set', seen_seq.ty[1]), sc)
         # iterated collection must not be modified by the body (termination + snapshot semantics)
         it_roots = {n.id for n in ast.walk(it_node) if isinstance(n, ast.Name)}
-        if it_roots & names:
+        snapshot = isinstance(it_node, ast.Call) and isinstance(it_node.func, ast.Name) and it_node.func.id in ('sorted', 'list', 'tuple')
+        if it_roots & names and not snapshot:      # sorted(...)/list(...)/tuple(...) build a new object before the loop starts
             raise Unsupported('loop body modifies the iterated collection')
         # ---- inv-init
         g0 = IntVal(0) if mode == 'index' else S.set_empty(qt).t
